@@ -116,6 +116,18 @@ func Run(ctx *core.Ctx) {
 	ctx.Exhaustive = fam != nil // every string up to the bound was enumerated by TLC (count verified) and replayed
 }
 
+// runTLC runs TLC and retries once when the JVM was killed from outside
+// (exit 137/143: other jobs on the machine), which is neither a verdict nor a
+// property of the spec.
+func runTLC(ctx *core.Ctx, o core.TLCOpts) (*core.TLCResult, error) {
+	res, err := runTLC(ctx, o)
+	if err != nil && res != nil && (strings.Contains(res.ToolErr, "TLC exit 143") || strings.Contains(res.ToolErr, "TLC exit 137")) {
+		time.Sleep(2 * time.Second)
+		return ctx.RunTLC(o)
+	}
+	return res, err
+}
+
 var extraMu sync.Mutex
 
 // setExtra writes ctx.Extra under a lock (the families run concurrently).
@@ -183,7 +195,7 @@ func ModelCheck(ctx *core.Ctx) map[string]*devResult {
 		wg.Add(1)
 		go func(r ref) {
 			defer wg.Done()
-			res, err := ctx.RunTLC(core.TLCOpts{Module: "C15Run", Cfg: m1Cfg(r.n, "", r.invs), Files: files,
+			res, err := runTLC(ctx, core.TLCOpts{Module: "C15Run", Cfg: m1Cfg(r.n, "", r.invs), Files: files,
 				Workers: r.w, Timeout: 9 * time.Minute, Label: r.label, Coverage: false})
 			if err != nil {
 				ctx.ToolError("M1 %s: %v", r.label, err)
@@ -210,7 +222,7 @@ func ModelCheck(ctx *core.Ctx) map[string]*devResult {
 			defer wg.Done()
 			sem <- struct{}{}
 			defer func() { <-sem }()
-			res, err := ctx.RunTLC(core.TLCOpts{Module: "C15Run", Cfg: m1Cfg(4, name, inv), Files: files,
+			res, err := runTLC(ctx, core.TLCOpts{Module: "C15Run", Cfg: m1Cfg(4, name, inv), Files: files,
 				Workers: 1, Timeout: 3 * time.Minute, Label: "M1-deviation-" + name})
 			if err != nil {
 				ctx.ToolError("M1 deviation %s: %v", name, err)
